@@ -222,5 +222,5 @@ func TestVerif_C08(t *testing.T) {
 	prop := c08Prop(t, k)
 	k.Regress(t, func(sub string, raw json.RawMessage) error { return verifkit.Decode(raw, prop) })
 	verifkit.Enumerate(k, t, "stop-situation-matrix", true, c08Matrix, prop)
-	verifkit.Rapid(k, t, "stop-instant-x-backlog", k.N(3000, 150000), c08Gen, prop)
+	verifkit.Rapid(k, t, "stop-instant-x-backlog", k.N(3000, 600000), c08Gen, prop)
 }
